@@ -255,7 +255,9 @@ func (q *c15RJQuerier) cfg() c15Obj {
 	case q.create == nil:
 		rj["create"] = nil
 	default:
-		rj["create"] = gmsl.CreatorsFromCreateEvent(q.create)
+		// by the room-version 12 rules: the sender of the create event and its additional_creators
+		// (stated here independently of CreatorsFromCreateEvent, which the handler uses)
+		rj["create"] = append([]string{string(q.create.SenderID())}, q.s.ExtraCreators...)
 	}
 	return rj
 }
